@@ -18,7 +18,22 @@ def gen_behaviours(v, tier, seed):
     os.unlink(r.outfile)
     if len(scen) < n // 2:
         raise Internal("Sched simulation produced only %d behaviours" % len(scen))
+    # the same specification over pieces of three blocks (piece length not a power of two)
+    n3 = n // 5
+    r = run_tlc("GenSched", "Sched_sim3.cfg", workers=1, simulate=n3, depth=45, seed=seed + 1, timeout=3000)
+    require_ok(r, "Sched simulation (pieces of three blocks)")
+    k3 = 0
+    for p in r.lines("BEH"):
+        if p in seen:
+            continue
+        seen.add(p)
+        scen.append({"steps": json.loads(p), "geom": 2})
+        k3 += 1
+    os.unlink(r.outfile)
+    if k3 < n3 // 2:
+        raise Internal("Sched simulation (pieces of three blocks) produced only %d behaviours" % k3)
     v.cov["simulated_behaviours"] = len(scen)
+    v.cov["simulated_behaviours_three_block_pieces"] = k3
     return scen
 
 
@@ -98,6 +113,20 @@ def run_c11_tables(v, tier, seed, rng):
     for w in walks2:
         sc = gc.scenario(w, "")
         cases.append({"kind": "pex", "steps": sc["steps"], "mult": 25})
+    # BlockName.tla: how a block number becomes (piece, offset, length) on the wire, beyond 4 GiB and for piece lengths
+    # that are not powers of two
+    r = run_tlc("BlockName", "BlockName_mc.cfg", workers=1, timeout=600)
+    require_ok(r, "BlockName model checking")
+    v.add_tlc("BlockName_mc.cfg", r)
+    nb = 0
+    for p in sorted(set(r.lines("CASE"))):
+        c = json.loads(p)
+        c["kind"] = "blockname"
+        cases.append(c)
+        nb += 1
+    os.unlink(r.outfile)
+    if nb < 80:
+        raise Internal("BlockName: only %d cases" % nb)
     for i, c in enumerate(cases):
         c["id"] = i
     vh = vlib.build_harness()
@@ -134,7 +163,7 @@ def run(prop, tier, seed, replay=None):
     v = Verdict(prop, tier, seed)
     v.assumptions = ["binding B2: the real handlers are stepped synchronously, the mailboxes between torrent and peers are consumed in the order "
                      "the TLC behaviour says; the Run loop's exit path and select races are not exercised here",
-                     "geometry: 2 pieces of 2+1 blocks, the last block short; 2 peers (one with, one without the fast extension)",
+                     "geometry: 2 pieces of 2+1 blocks, the last block short or full, and 2 pieces of 3+1 blocks (piece length not a power of two); 2 peers (one with, one without the fast extension)",
                      "maybeRequest's pipelining (rate dependent) is nondeterministic in the specification"]
     if replay and json.load(open(replay))["scenario"].get("binding") == "webseed":
         import p_webseed
@@ -151,7 +180,7 @@ def run(prop, tier, seed, replay=None):
         scen = gen_behaviours(v, tier, seed)
         for i, sc in enumerate(scen):
             sc["id"] = i
-            sc["geom"] = i % 2
+            sc.setdefault("geom", i % 2)
     if replay and scen[0].get("kind") in ("advert", "pex"):
         raise Internal("replay of advert/pex cases: run `harness/bin/vh c11x` on the scenario")
     obs, applied, nreq = run_replays(v, prop, scen)
